@@ -965,7 +965,10 @@ class Sim(object):
                         DateTimeOperator(calendar_mode=spelled)
                     else:
                         self.set_env_cal(spelled)
-                        DateTimeOperator()
+                        try:
+                            DateTimeOperator()
+                        finally:
+                            self.set_env_cal(None)
                     self.count("probe.mode_name_other_case")
                 except Exception:
                     self.set_env_cal(None)
